@@ -285,7 +285,8 @@ inductive StopSpec (c : Cfg) (now : Tick) (r : Reason) (i : Inst) : Out → Prop
       (mono : ∀ x ∈ i.reasons, x ∈ i'.reasons)
       (whenKept : ∀ w, i.when = some w → i'.when = some w)
       (cancKept : ∀ t, i.cancelAt = some t → i'.cancelAt = some t)
-      (abanKept : ∀ t, i.abandonAt = some t → i'.abandonAt = some t) : StopSpec c now r i (.alive i' d)
+      (abanKept : ∀ t, i.abandonAt = some t → i'.abandonAt = some t)
+      (ksKept : i'.kstarts = i.kstarts) : StopSpec c now r i (.alive i' d)
   | ended (i' : Inst) (mono : ∀ x ∈ i.reasons, x ∈ i'.reasons) : StopSpec c now r i (.ended i')
 
 end Kopf.C09
@@ -309,6 +310,16 @@ theorem applySet_abandon (i : Inst) (now : Tick) :
   unfold applySet actAbandon
   by_cases h : Reason.abandoned ∈ i.reasons <;> simp [h, set_abandonAt]
 
+theorem applySet_kstarts (act : Act) (i : Inst) (now : Tick) : (applySet act i now).1.kstarts = i.kstarts := by
+  unfold applySet
+  cases act.set with
+  | none => rfl
+  | some r =>
+    by_cases h : r ∈ i.reasons
+    · simp [h]
+    · simp only [h, if_false]
+      cases act.cancel <;> by_cases h2 : r = Reason.abandoned <;> simp [h2, set_kstarts]
+
 theorem applySet_poll (i : Inst) (now : Tick) : (applySet actPoll i now).1 = i := by
   simp [applySet, actPoll]
 
@@ -319,16 +330,17 @@ theorem primary_ne {r : Reason} (h : r.primary = true) : r ≠ .cancelled ∧ r 
 theorem sure_set {c : Cfg} {now : Tick} {i : Inst} (h : InstInv c now i) {r : Reason} (hr : r.primary = true) :
     let i1 := if r ∈ i.reasons then i else i.set r now
     InstInv c now i1 ∧ r ∈ i1.reasons ∧ (∀ x ∈ i.reasons, x ∈ i1.reasons) ∧
-      (∀ w, i.when = some w → i1.when = some w) ∧ i1.cancelAt = i.cancelAt ∧ i1.abandonAt = i.abandonAt := by
+      (∀ w, i.when = some w → i1.when = some w) ∧ i1.cancelAt = i.cancelAt ∧ i1.abandonAt = i.abandonAt ∧
+      i1.kstarts = i.kstarts := by
   intro i1
   obtain ⟨h1, h2, _⟩ := primary_ne hr
   by_cases hm : r ∈ i.reasons
   · have : i1 = i := by simp [i1, hm]
     rw [this]
-    exact ⟨h, hm, fun _ hx => hx, fun _ hw => hw, rfl, rfl⟩
+    exact ⟨h, hm, fun _ hx => hx, fun _ hw => hw, rfl, rfl, rfl⟩
   · have : i1 = i.set r now := by simp [i1, hm]
     rw [this]
-    refine ⟨h.set_plain r h1 h2 (Or.inl hr), mem_set.mpr (Or.inr rfl), fun x hx => mem_set.mpr (Or.inl hx), ?_, rfl, rfl⟩
+    refine ⟨h.set_plain r h1 h2 (Or.inl hr), mem_set.mpr (Or.inr rfl), fun x hx => mem_set.mpr (Or.inl hx), ?_, rfl, rfl, rfl⟩
     intro w hw
     simp [set_when, hw]
 
@@ -339,9 +351,9 @@ theorem stopOne_spec {c : Cfg} {now : Tick} {i : Inst} (h : InstInv c now i) {r 
   · simp only [h0, if_true]
     exact .ended i (fun _ hx => hx)
   · have hd0 : ex.d0 = false := by simpa using h0
-    obtain ⟨hinv1, hask, hmono, hwhen, hc1, ha1⟩ := sure_set h hr
+    obtain ⟨hinv1, hask, hmono, hwhen, hc1, ha1, hk1⟩ := sure_set h hr
     have hage := age_of_when h r
-    generalize hi1 : (if r ∈ i.reasons then i else i.set r now) = i1 at hinv1 hask hmono hwhen hc1 ha1 hage
+    generalize hi1 : (if r ∈ i.reasons then i else i.set r now) = i1 at hinv1 hask hmono hwhen hc1 ha1 hk1 hage
     by_cases h1 : ex.d1 = true
     · simp only [hd0, h1, if_true, Bool.false_eq_true, if_false]
       exact .ended i1 hmono
@@ -368,13 +380,14 @@ theorem stopOne_spec {c : Cfg} {now : Tick} {i : Inst} (h : InstInv c now i) {r 
             refine ⟨hinv1.set_plain _ (by decide) (by decide) (Or.inr hprim), fun x hx => mem_set.mpr (Or.inl hx), ?_, rfl, rfl⟩
             intro w hw; simp [set_when, hw]
         obtain ⟨hinv2, hm2, hw2, hc2, ha2⟩ := hi2
-        generalize (applySet actSignal i1 now).1 = i2 at hinv2 hm2 hw2 hc2 ha2 ⊢
+        have hk2 := applySet_kstarts actSignal i1 now
+        generalize (applySet actSignal i1 now).1 = i2 at hinv2 hm2 hw2 hc2 ha2 hk2 ⊢
         by_cases h2 : (actSignal.delayIfAlive && ex.d2) = true
         · simp only [h2, if_true]
           exact .ended i2 (fun x hx => hm2 x (hmono x hx))
         · simp only [h2]
           exact .alive i2 _ hinv2 (hm2 r hask) (fun x hx => hm2 x (hmono x hx)) (fun w hw => hw2 w (hwhen w hw))
-            (fun t ht => by rw [hc2, hc1]; exact ht) (fun t ht => by rw [ha2, ha1]; exact ht)
+            (fun t ht => by rw [hc2, hc1]; exact ht) (fun t ht => by rw [ha2, ha1]; exact ht) (hk2.trans hk1)
       · -- cancelled
         rw [hs]
         have hageb : ∀ w, i1.when = some w → w + c.b0 ≤ now := by
@@ -401,13 +414,14 @@ theorem stopOne_spec {c : Cfg} {now : Tick} {i : Inst} (h : InstInv c now i) {r 
             · intro w hw; simp [set_when, hw]
             · intro t ht; simp [ht]
         obtain ⟨hinv2, hm2, hw2, hc2, ha2⟩ := hi2
-        generalize (applySet actCancel i1 now).1 = i2 at hinv2 hm2 hw2 hc2 ha2 ⊢
+        have hk2 := applySet_kstarts actCancel i1 now
+        generalize (applySet actCancel i1 now).1 = i2 at hinv2 hm2 hw2 hc2 ha2 hk2 ⊢
         by_cases h2 : (actCancel.delayIfAlive && ex.d2) = true
         · simp only [h2, if_true]
           exact .ended i2 (fun x hx => hm2 x (hmono x hx))
         · simp only [h2]
           exact .alive i2 _ hinv2 (hm2 r hask) (fun x hx => hm2 x (hmono x hx)) (fun w hw => hw2 w (hwhen w hw))
-            (fun t ht => hc2 t (by rw [hc1]; exact ht)) (fun t ht => by rw [ha2, ha1]; exact ht)
+            (fun t ht => hc2 t (by rw [hc1]; exact ht)) (fun t ht => by rw [ha2, ha1]; exact ht) (hk2.trans hk1)
       · -- abandoned
         rw [hs]
         have hageb : ∀ w, i1.when = some w → w + c.b0 + c.t0 ≤ now := by
@@ -434,16 +448,17 @@ theorem stopOne_spec {c : Cfg} {now : Tick} {i : Inst} (h : InstInv c now i) {r 
             · intro w hw; simp [set_when, hw]
             · intro t ht; simp [ht]
         obtain ⟨hinv2, hm2, hw2, hc2, ha2⟩ := hi2
-        generalize (applySet actAbandon i1 now).1 = i2 at hinv2 hm2 hw2 hc2 ha2 ⊢
+        have hk2 := applySet_kstarts actAbandon i1 now
+        generalize (applySet actAbandon i1 now).1 = i2 at hinv2 hm2 hw2 hc2 ha2 hk2 ⊢
         have h2 : (actAbandon.delayIfAlive && ex.d2) = false := by simp [actAbandon]
         simp only [h2]
         exact .alive i2 _ hinv2 (hm2 r hask) (fun x hx => hm2 x (hmono x hx)) (fun w hw => hw2 w (hwhen w hw))
-          (fun t ht => by rw [hc2, hc1]; exact ht) (fun t ht => ha2 t (by rw [ha1]; exact ht))
+          (fun t ht => by rw [hc2, hc1]; exact ht) (fun t ht => ha2 t (by rw [ha1]; exact ht)) (hk2.trans hk1)
       · -- polling
         rw [hs, applySet_poll]
         have h2 : (actPoll.delayIfAlive && ex.d2) = false := by simp [actPoll]
         simp only [h2]
-        exact .alive i1 _ hinv1 hask hmono hwhen (fun t ht => by rw [hc1]; exact ht) (fun t ht => by rw [ha1]; exact ht)
+        exact .alive i1 _ hinv1 hask hmono hwhen (fun t ht => by rw [hc1]; exact ht) (fun t ht => by rw [ha1]; exact ht) hk1
 
 end Kopf.C09
 
@@ -462,12 +477,13 @@ structure Mono (i i' : Inst) : Prop where
   when : ∀ w, i.when = some w → i'.when = some w
   canc : ∀ t, i.cancelAt = some t → i'.cancelAt = some t
   aban : ∀ t, i.abandonAt = some t → i'.abandonAt = some t
+  ks : ∀ st ∈ i.kstarts, st ∈ i'.kstarts
 
-theorem Mono.refl (i : Inst) : Mono i i := ⟨fun _ h => h, fun _ h => h, fun _ h => h, fun _ h => h⟩
+theorem Mono.refl (i : Inst) : Mono i i := ⟨fun _ h => h, fun _ h => h, fun _ h => h, fun _ h => h, fun _ h => h⟩
 
 theorem Mono.trans {a b d : Inst} (h1 : Mono a b) (h2 : Mono b d) : Mono a d :=
   ⟨fun x h => h2.reasons x (h1.reasons x h), fun w h => h2.when w (h1.when w h),
-   fun t h => h2.canc t (h1.canc t h), fun t h => h2.aban t (h1.aban t h)⟩
+   fun t h => h2.canc t (h1.canc t h), fun t h => h2.aban t (h1.aban t h), fun t h => h2.ks t (h1.ks t h)⟩
 
 /-- `s'` comes from `s` without a spawn: the instance (if any) evolved or ended. -/
 structure Evolves (s s' : St) : Prop where
@@ -521,14 +537,14 @@ theorem stopIf_spec {c : Cfg} {s : St} (h : Inv c s) {r : Reason} (hr : r.primar
       simp only
       generalize stopOne c s.now r i ex = out at hspec
       cases hspec with
-      | alive i' d inv asked mono whenKept cancKept abanKept =>
+      | alive i' d inv asked mono whenKept cancKept abanKept ksKept =>
         simp only [applyOut]
         refine ⟨⟨?_, ?_, ?_⟩, ⟨rfl, rfl, rfl, fun hf => hf, ?_, ?_⟩, ?_⟩
         · have := h.live; simp [hrun] at this; simp [this]
         · intro hf; have := h.fz hf; rw [hrun] at this; cases this
         · intro k hk; simp at hk; subst hk; exact inv
         · intro k hk; simp at hk; subst hk
-          exact ⟨i, hrun, ⟨mono, whenKept, cancKept, abanKept⟩⟩
+          exact ⟨i, hrun, ⟨mono, whenKept, cancKept, abanKept, fun st hst => by rw [ksKept]; exact hst⟩⟩
         · intro hn; rw [hrun] at hn; cases hn
         · intro _ k hk; simp at hk; subst hk; exact asked
       | ended i' mono =>
@@ -794,7 +810,7 @@ namespace Kopf.C09
 /-! ### Per-label facts used by the property theorems -/
 
 theorem set_mono (i : Inst) (r : Reason) (now : Tick) : Mono i (i.set r now) :=
-  ⟨fun _ hx => mem_set.mpr (Or.inl hx), fun w hw => by simp [set_when, hw], fun _ h => h, fun _ h => h⟩
+  ⟨fun _ hx => mem_set.mpr (Or.inl hx), fun w hw => by simp [set_when, hw], fun _ h => h, fun _ h => h, fun _ h => h⟩
 
 theorem step_mono {c : Cfg} {s s' : St} (h : Inv c s) (l : Label) (hs : step c s l = some s')
     {i i' : Inst} (hi : s.run = some i) (hi' : s'.run = some i') : Mono i i' := by
@@ -813,7 +829,8 @@ theorem step_mono {c : Cfg} {s s' : St} (h : Inv c s) (l : Label) (hs : step c s
     simp only [step, hi] at hs
     split at hs
     · cases hs; simp at hi'; subst hi'
-      exact ⟨(set_mono i r s.now).reasons, (set_mono i r s.now).when, fun _ h => h, fun _ h => h⟩
+      exact ⟨(set_mono i r s.now).reasons, (set_mono i r s.now).when, fun _ h => h, fun _ h => h,
+        fun st hst => List.mem_cons_of_mem _ hst⟩
     · cases hs
   | kSignal st =>
     simp only [step, hi] at hs
@@ -824,14 +841,14 @@ theorem step_mono {c : Cfg} {s s' : St} (h : Inv c s) (l : Label) (hs : step c s
     simp only [step, hi] at hs
     split at hs
     · cases hs; simp at hi'; subst hi'
-      refine ⟨(set_mono i .cancelled s.now).reasons, (set_mono i .cancelled s.now).when, ?_, fun _ h => h⟩
+      refine ⟨(set_mono i .cancelled s.now).reasons, (set_mono i .cancelled s.now).when, ?_, fun _ h => h, fun _ h => h⟩
       intro t ht; simp [ht]
     · cases hs
   | kAbandon st =>
     simp only [step, hi] at hs
     split at hs
     · cases hs; simp at hi'; subst hi'
-      refine ⟨(set_mono i .abandoned s.now).reasons, (set_mono i .abandoned s.now).when, fun _ h => h, ?_⟩
+      refine ⟨(set_mono i .abandoned s.now).reasons, (set_mono i .abandoned s.now).when, fun _ h => h, ?_, fun _ h => h⟩
       intro t ht; simp [ht]
     · cases hs
 
@@ -912,9 +929,6 @@ theorem runs_forever {c : Cfg} : ∀ (ls : List Label) {s s' : St}, Inv c s → 
       cases l <;> simp [hf]
 
 /-! ### The unmarked disappearance: nobody ever asks the instance to stop -/
-
-/-- the memory was forgotten while an instance that was never asked to stop is running -/
-def Orphan (s : St) : Prop := s.known = false ∧ ∀ i, s.run = some i → i.reasons = [] ∧ i.kstarts = []
 
 theorem orphan_step {c : Cfg} {s s' : St} (ho : Orphan s) (l : Label) (hs : step c s l = some s') : Orphan s' := by
   obtain ⟨hk, hi⟩ := ho
@@ -998,5 +1012,324 @@ theorem resweep_path {c : Cfg} {s : St} (h : Inv c s) {i : Inst} (hi : s.run = s
       omega
   · exact (mem_set (i := i1) (r := .cancelled) (now := r + c.b0)).mpr (Or.inl ((mem_set (i := i) (r := .pausing) (now := r)).mpr (Or.inr rfl)))
   · exact (mem_set (i := i1) (r := .cancelled) (now := r + c.b0)).mpr (Or.inr rfl)
+
+end Kopf.C09
+
+namespace Kopf.C09
+
+/-! ### Frame facts of single steps, and the killer's duty -/
+
+theorem step_now {c : Cfg} {s s' : St} (h : Inv c s) (l : Label) (hs : step c s l = some s') :
+    s'.now = s.now + (match l with | .tick d => (d : Int) | _ => 0) := by
+  cases l with
+  | tick d => simp only [step, Option.some.injEq] at hs; subst hs; rfl
+  | cycle inp =>
+    simp only [step] at hs
+    split at hs
+    · cases hs; simpa using (cycle_spec h inp).2.1
+    · cases hs
+  | exit =>
+    simp only [step] at hs
+    cases hrun : s.run with
+    | none => rw [hrun] at hs; cases hs
+    | some i => rw [hrun] at hs; cases hs; simp [endInst]
+  | kBegin r =>
+    simp only [step] at hs
+    cases hrun : s.run with
+    | none => rw [hrun] at hs; cases hs
+    | some i => rw [hrun] at hs; simp only at hs; split at hs <;> cases hs; simp
+  | kSignal st =>
+    simp only [step] at hs
+    cases hrun : s.run with
+    | none => rw [hrun] at hs; cases hs
+    | some i => rw [hrun] at hs; simp only at hs; split at hs <;> cases hs; simp
+  | kCancel st =>
+    simp only [step] at hs
+    cases hrun : s.run with
+    | none => rw [hrun] at hs; cases hs
+    | some i => rw [hrun] at hs; simp only at hs; split at hs <;> cases hs; simp
+  | kAbandon st =>
+    simp only [step] at hs
+    cases hrun : s.run with
+    | none => rw [hrun] at hs; cases hs
+    | some i => rw [hrun] at hs; simp only at hs; split at hs <;> cases hs; simp
+
+theorem step_known {c : Cfg} {s s' : St} (_h : Inv c s) (l : Label) (hs : step c s l = some s')
+    (hk : s'.known = true) : s.known = true := by
+  cases l with
+  | tick d => simp only [step, Option.some.injEq] at hs; subst hs; exact hk
+  | cycle inp =>
+    simp only [step] at hs
+    split at hs
+    · rename_i hkk; exact hkk
+    · cases hs
+  | exit =>
+    simp only [step] at hs
+    cases hrun : s.run with
+    | none => rw [hrun] at hs; cases hs
+    | some i => rw [hrun] at hs; cases hs; simpa [endInst] using hk
+  | kBegin r =>
+    simp only [step] at hs
+    cases hrun : s.run with
+    | none => rw [hrun] at hs; cases hs
+    | some i => rw [hrun] at hs; simp only at hs; split at hs <;> cases hs; simpa using hk
+  | kSignal st =>
+    simp only [step] at hs
+    cases hrun : s.run with
+    | none => rw [hrun] at hs; cases hs
+    | some i => rw [hrun] at hs; simp only at hs; split at hs <;> cases hs; simpa using hk
+  | kCancel st =>
+    simp only [step] at hs
+    cases hrun : s.run with
+    | none => rw [hrun] at hs; cases hs
+    | some i => rw [hrun] at hs; simp only at hs; split at hs <;> cases hs; simpa using hk
+  | kAbandon st =>
+    simp only [step] at hs
+    cases hrun : s.run with
+    | none => rw [hrun] at hs; cases hs
+    | some i => rw [hrun] at hs; simp only at hs; split at hs <;> cases hs; simpa using hk
+
+theorem step_spawns_le {c : Cfg} {s s' : St} (h : Inv c s) (l : Label) (hs : step c s l = some s') :
+    s.spawns ≤ s'.spawns := by
+  rw [step_spawns h l hs]; omega
+
+theorem cycle_run_none (c : Cfg) (inp : CycIn) (s : St) (hn : s.run = none)
+    (hc : (!inp.marked && inp.matching && !s.forever) = false) : (cycle c inp s).1.run = none := by
+  unfold cycle stopIf
+  cases hd : inp.deleted <;> cases hm : inp.marked <;> cases hma : inp.matching <;> cases hf : s.forever <;>
+    simp_all
+
+/-- no instance and no spawn in this step: still no instance -/
+theorem step_run_none {c : Cfg} {s s' : St} (h : Inv c s) (l : Label) (hs : step c s l = some s')
+    (hn : s.run = none) (hsp : s'.spawns = s.spawns) : s'.run = none := by
+  cases l with
+  | tick d => simp only [step, Option.some.injEq] at hs; subst hs; exact hn
+  | cycle inp =>
+    have hsp' := step_spawns h (.cycle inp) hs
+    simp only [hn, Option.isNone_none, Bool.and_true] at hsp'
+    simp only [step] at hs
+    split at hs
+    · cases hs
+      apply cycle_run_none c inp s hn
+      by_cases hc : (!inp.marked && inp.matching && !s.forever) = true
+      · simp only [hc, if_true] at hsp'; omega
+      · simpa using hc
+    · cases hs
+  | exit => simp [step, hn] at hs
+  | kBegin r => simp [step, hn] at hs
+  | kSignal st => simp [step, hn] at hs
+  | kCancel st => simp [step, hn] at hs
+  | kAbandon st => simp [step, hn] at hs
+
+/-- the instance of the start state is out of the killer's reach or gone for good (w.r.t. the final
+    claim "the same instance still runs and its memory is known") -/
+def Lost (sp0 : Nat) (s : St) : Prop := s.known = false ∨ s.run = none ∨ sp0 < s.spawns
+
+theorem lost_step {c : Cfg} {sp0 : Nat} {s s' : St} (h : Inv c s) (l : Label) (hs : step c s l = some s')
+    (hsp : sp0 ≤ s.spawns) (hl : Lost sp0 s) : Lost sp0 s' := by
+  have hle := step_spawns_le h l hs
+  rcases hl with hk | hn | hlt
+  · left
+    cases hk' : s'.known with
+    | false => rfl
+    | true => have := step_known h l hs hk'; rw [hk] at this; cases this
+  · by_cases he : s'.spawns = s.spawns
+    · right; left; exact step_run_none h l hs hn he
+    · right; right; omega
+  · right; right; omega
+
+/-- what each stage of the duty has established for the instance that is still the original one -/
+def DutyInv (c : Cfg) (r : Tick) (sp0 : Nat) : Duty → St → Prop
+  | .waiting, s => Lost sp0 s ∨ s.now ≤ r
+  | .begun, s => Lost sp0 s ∨ (s.now ≤ r + c.b0 ∧ ∀ i, s.run = some i → r ∈ i.kstarts)
+  | .served, s => Lost sp0 s ∨ ∀ i, s.run = some i → ∃ tc, i.cancelAt = some tc ∧ tc ≤ r + c.b0
+
+theorem step_now_other {c : Cfg} {s s' : St} (h : Inv c s) (l : Label) (hs : step c s l = some s')
+    (hl : ∀ n, l ≠ .tick n) : s'.now = s.now := by
+  have := step_now h l hs
+  cases l with
+  | tick n => exact absurd rfl (hl n)
+  | _ => simpa using this
+
+theorem duty_step {c : Cfg} {r : Tick} {sp0 : Nat} {s s' : St} (h : Inv c s) (hb : 0 ≤ c.b0) (d : Duty) (l : Label)
+    (hs : step c s l = some s') (hsp : sp0 ≤ s.spawns)
+    (hduty : d.allows c r s l)
+    (hinv : DutyInv c r sp0 d s) : DutyInv c r sp0 (d.next r s l) s' := by
+  have hlost : Lost sp0 s → Lost sp0 s' := lost_step h l hs hsp
+  have hmono : ∀ i i', s.run = some i → s'.run = some i' → Mono i i' := fun i i' hi hi' => step_mono h l hs hi hi'
+  have hsame : ∀ i', s'.run = some i' → Lost sp0 s' ∨ ∃ i, s.run = some i := by
+    intro i' hi'
+    cases hrun : s.run with
+    | some i => exact Or.inr ⟨i, rfl⟩
+    | none => exact Or.inl (hlost (Or.inr (Or.inl hrun)))
+  unfold Duty.next
+  by_cases hA : d = .waiting ∧ l = .kBegin .pausing ∧ s.now = r
+  · -- the round at `r` starts `stop_daemon` for this daemon
+    rw [if_pos hA]
+    obtain ⟨hd, hl, hr⟩ := hA
+    subst hd; subst hl
+    have hnow := step_now_other h _ hs (by intro n hn; cases hn)
+    by_cases hL : Lost sp0 s'
+    · exact Or.inl hL
+    · right
+      refine ⟨by rw [hnow, hr]; unfold Tick at *; omega, ?_⟩
+      intro i' hi'
+      simp only [step] at hs
+      cases hrun : s.run with
+      | none => rw [hrun] at hs; cases hs
+      | some i =>
+        rw [hrun] at hs
+        simp only at hs
+        split at hs
+        · cases hs
+          simp only [Option.some.injEq] at hi'
+          subst hi'
+          simp [hr]
+        · cases hs
+  · rw [if_neg hA]
+    by_cases hB : d = .begun ∧ l = .kCancel r
+    · -- the cancellation stage of the coroutine started at `r`
+      rw [if_pos hB]
+      obtain ⟨hd, hl⟩ := hB
+      subst hd; subst hl
+      rcases hinv with hl | ⟨hle, _⟩
+      · exact Or.inl (hlost hl)
+      · right
+        intro i' hi'
+        simp only [step] at hs
+        cases hrun : s.run with
+        | none => rw [hrun] at hs; cases hs
+        | some i =>
+          rw [hrun] at hs
+          simp only at hs
+          split at hs
+          · cases hs
+            simp only [Option.some.injEq] at hi'
+            subst hi'
+            refine ⟨i.cancelAt.getD s.now, rfl, ?_⟩
+            cases hca : i.cancelAt with
+            | none => simpa using hle
+            | some t =>
+              obtain ⟨_, _, _, h3⟩ := (h.inst i hrun).canc t hca
+              simp only [Option.getD_some]
+              exact Int.le_trans h3 hle
+          · cases hs
+    · rw [if_neg hB]
+      -- the duty stage does not change: its invariant is kept by any step
+      cases d with
+      | waiting =>
+        rcases hinv with hl | hle
+        · exact Or.inl (hlost hl)
+        · cases l with
+          | tick n =>
+            have hnow := step_now h _ hs
+            simp only [Duty.allows] at hduty
+            simp only at hnow
+            rcases hduty with h1 | h2 | h3
+            · right; rw [hnow]; exact h1
+            · exact Or.inl (hlost (Or.inl h2))
+            · exact Or.inl (hlost (Or.inr (Or.inl h3)))
+          | cycle inp => right; rw [step_now_other h _ hs (by intro n hn; cases hn)]; exact hle
+          | exit => right; rw [step_now_other h _ hs (by intro n hn; cases hn)]; exact hle
+          | kBegin rr => right; rw [step_now_other h _ hs (by intro n hn; cases hn)]; exact hle
+          | kSignal st => right; rw [step_now_other h _ hs (by intro n hn; cases hn)]; exact hle
+          | kCancel st => right; rw [step_now_other h _ hs (by intro n hn; cases hn)]; exact hle
+          | kAbandon st => right; rw [step_now_other h _ hs (by intro n hn; cases hn)]; exact hle
+      | begun =>
+        rcases hinv with hl | ⟨hle, hks⟩
+        · exact Or.inl (hlost hl)
+        · have keep : s'.now ≤ r + c.b0 → DutyInv c r sp0 Duty.begun s' := by
+            intro hn
+            by_cases hL : Lost sp0 s'
+            · exact Or.inl hL
+            · right
+              refine ⟨hn, fun i' hi' => ?_⟩
+              rcases hsame i' hi' with hl | ⟨i, hi⟩
+              · exact absurd hl hL
+              · exact (hmono i i' hi hi').ks r (hks i hi)
+          cases l with
+          | tick n =>
+            have hnow := step_now h _ hs
+            simp only [Duty.allows] at hduty
+            simp only at hnow
+            rcases hduty with h1 | h3
+            · exact keep (by rw [hnow]; exact h1)
+            · exact Or.inl (hlost (Or.inr (Or.inl h3)))
+          | cycle inp => exact keep (by rw [step_now_other h _ hs (by intro n hn; cases hn)]; exact hle)
+          | exit => exact keep (by rw [step_now_other h _ hs (by intro n hn; cases hn)]; exact hle)
+          | kBegin rr => exact keep (by rw [step_now_other h _ hs (by intro n hn; cases hn)]; exact hle)
+          | kSignal st => exact keep (by rw [step_now_other h _ hs (by intro n hn; cases hn)]; exact hle)
+          | kCancel st => exact keep (by rw [step_now_other h _ hs (by intro n hn; cases hn)]; exact hle)
+          | kAbandon st => exact keep (by rw [step_now_other h _ hs (by intro n hn; cases hn)]; exact hle)
+      | served =>
+        rcases hinv with hl | hc
+        · exact Or.inl (hlost hl)
+        · by_cases hL : Lost sp0 s'
+          · exact Or.inl hL
+          · right
+            intro i' hi'
+            rcases hsame i' hi' with hl | ⟨i, hi⟩
+            · exact absurd hl hL
+            · obtain ⟨tc, h1, h2⟩ := hc i hi
+              exact ⟨tc, (hmono i i' hi hi').canc tc h1, h2⟩
+
+/-- Along every dutiful run: if at the end the clock is past `r + backoff`, the memory is still known and
+    the instance of the start state is still the running one, its task has been cancelled by `r + backoff`. -/
+theorem dutiful_runs {c : Cfg} {r : Tick} (hb : 0 ≤ c.b0) :
+    ∀ (ls : List Label) (d : Duty) (s s' : St) (sp0 : Nat), Inv c s → sp0 ≤ s.spawns → DutyInv c r sp0 d s →
+      Dutiful c r d s ls → runs c s ls = some s' →
+      ∃ d', DutyInv c r sp0 d' s' ∧ sp0 ≤ s'.spawns
+  | [], d, s, s', sp0, _, hsp, hinv, _, hr => by
+    simp only [runs, Option.some.injEq] at hr; subst hr; exact ⟨d, hinv, hsp⟩
+  | l :: ls, d, s, s', sp0, h, hsp, hinv, hdut, hr => by
+    simp only [runs] at hr
+    cases hst : step c s l with
+    | none => rw [hst] at hr; cases hr
+    | some s1 =>
+      rw [hst] at hr
+      simp only [Dutiful, hst] at hdut
+      have h1 := step_inv h l hst
+      have hinv1 := duty_step (r := r) (sp0 := sp0) h hb d l hst hsp hdut.1 hinv
+      exact dutiful_runs hb ls _ s1 s' sp0 h1 (Nat.le_trans hsp (step_spawns_le h l hst)) hinv1 hdut.2 hr
+
+/-! ### `Dutiful` is decidable on concrete runs (for the non-vacuity examples) -/
+
+instance (c : Cfg) (r : Tick) (d : Duty) (s : St) (l : Label) : Decidable (d.allows c r s l) := by
+  cases l <;> cases d <;> simp only [Duty.allows] <;> infer_instance
+
+instance Dutiful.decidable (c : Cfg) (r : Tick) : ∀ (d : Duty) (s : St) (ls : List Label), Decidable (Dutiful c r d s ls)
+  | _, _, [] => isTrue trivial
+  | d, s, l :: ls =>
+    match h : step c s l with
+    | some s' =>
+      have := Dutiful.decidable c r (d.next r s l) s' ls
+      decidable_of_iff (d.allows c r s l ∧ Dutiful c r (d.next r s l) s' ls) (by simp [Dutiful, h])
+    | none => decidable_of_iff (d.allows c r s l) (by simp [Dutiful, h])
+
+/-! ### Tie-side and enabledness facts (not property theorems) -/
+
+/-- the model's sweep does not look at the stopper (content: `Tie.sweep_unconditional` over the AST) -/
+theorem sweep_is_unconditional (i : Inst) : sweepSpawns i = true := rfl
+
+/-- iterating a snapshot visits the snapshot, whatever happens to the dict (content:
+    `Tie.killer_iterates_snapshots` over the AST) -/
+theorem killer_sweep_visits_all {α : Type} (snapshot : List α) (sizes : List Nat) :
+    iterSnapshot snapshot sizes [] = (.finished, snapshot) := by
+  have h : ∀ (xs : List α) (szs : List Nat) (acc : List α),
+      iterSnapshot xs szs acc = (.finished, acc.reverse ++ xs) := by
+    intro xs
+    induction xs with
+    | nil => intro szs acc; simp [iterSnapshot]
+    | cons x xs ih =>
+      intro szs acc
+      cases szs with
+      | nil => simp [iterSnapshot, ih]
+      | cons z zs => simp [iterSnapshot, ih]
+  simpa using h snapshot sizes []
+
+/-- the killer's `stop_daemon` is enabled for every running instance of a known memory (restates the guard) -/
+theorem killer_begin_enabled (c : Cfg) (s : St) (i : Inst) (r : Reason) (hi : s.run = some i) (hk : s.known = true)
+    (hr : r = .pausing ∨ r = .exiting) : ∃ s', step c s (.kBegin r) = some s' := by
+  rcases hr with hr | hr <;> subst hr <;> simp [step, hi, hk]
 
 end Kopf.C09
